@@ -344,6 +344,15 @@ pub fn c01_families(tier: &str) -> Vec<SeqSpec> {
     ab.push(Op::Flush);
     ab.extend(reopen_ops(2));
     v.push(spec("F-bytes", &["M2b", "T300n"], k5(), ab, if t { 3 } else { 2 }, READS));
+    // the byte-string keys (empty, 0x00, 0xff, ...) with small values only, deeper, every write flushed
+    let mut abs = vec![];
+    for k in 0..5u8 {
+        abs.push(Op::Put(k, 0));
+        abs.push(Op::Del(k));
+    }
+    abs.push(Op::Compact(None, None));
+    abs.extend(reopen_ops(2));
+    v.push(spec("F-bytes-small", &["T300", "T1n"], k5(), abs, if t { 5 } else { 3 }, READS).flush());
     // a WAL written with a large memtable budget, replayed with a small one: the recovery itself
     // has to flush several memtables while reading the log
     v.push(
@@ -394,7 +403,7 @@ pub fn c10(tier: &str) -> ! {
     let lay = checks(false, false, false, true, false, false);
     let fams: Vec<SeqSpec> = c01_families(tier)
         .into_iter()
-        .filter(|f| !f.name.starts_with("F-bytes"))
+        .filter(|f| f.name != "F-bytes")
         .map(|mut f| {
             f.checks = lay;
             f
